@@ -203,3 +203,26 @@ PROPS.update({
 })
 NONTRIVIAL["C05"] = lambda r: len(r.split()) >= 2 and len(r.split()[1]) >= 4
 NONTRIVIAL["C15"] = lambda r: True
+
+PROPS["C14"] = {
+    "lean": [], "gens": ["c14"], "level": "exploration", "release": False,
+    "rule": "cases: every Unicode scalar value as a one-character string (exhaustive, 1,112,064; round trip and ECI choice checked in the harness, reported per block of 4096; full stream oracle for U+0000..U+03FF and a sample), random strings over scalar classes (controls, ASCII, Latin-1 supplement, BMP, astral; pure Latin-1 strings; macro 05/06 shaped strings), Latin-1 helper functions on random byte strings and strings; non-trivial = distinct strchk/dstr/l2u/u2l requests",
+    "explanation": "encode_str -> decode_str returns the string (compared on the real code); the stream oracle (Lean reference decoder) checks the ECI choice: printable ISO-8859-1 strings are encoded byte for byte without ECI codeword, all others carry ECI 26 followed by the UTF-8 bytes; the Latin-1 helpers are compared with the regenerated per-character tables.",
+    "level_text": "Exploration with specification oracle; exhaustive over all one-character strings.",
+    "level_note": "Trusted: reference decoder, Spec/Charsets.lean, harness.",
+    "technique": "round trip on the real code + stream oracle (Lean reference decoder), exhaustive over scalar values",
+    "assumptions": ["core::str::from_utf8 accepts exactly well-formed UTF-8 (compared with Lean's String.fromUTF8?)"],
+}
+NONTRIVIAL["C14"] = lambda r: r.split()[0] in ("strchk", "dstr", "l2u", "u2l") and len(r.split()[1]) >= 4
+
+PROPS["C17"] = {
+    "lean": ["DM.Props.C17"], "gens": ["c17"], "level": "translation_validation", "release": False,
+    "rule": "programs = bitmaps whose path()/pixels()/unicode() output is validated: every w x h bitmap with a dark top-left module up to 13 cells (thorough: 20 cells, ~1M; holes, diagonal contacts and nested islands all occur), random bitmaps up to 144x144 at densities 10..90%, nested rings, encoded symbols of all 48 sizes; non-trivial = distinct bitmaps with >= 2 cells",
+    "explanation": "Each path returned by the implementation is run through the executable checker pathOK, compiled from the Lean definition for which checker_sound is proved: acceptance implies the path is well formed (axis-parallel non-zero segments, moves only after a close, inside the bounding box, closed at the end) and its even-odd fill is exactly the bitmap; the checker additionally demands that every outline edge is drawn exactly once. pixels() is compared with the model for which pixels_exact is proved; unicode() with its model.",
+    "level_text": "Translation validation: a proved-sound checker (Lean theorem checker_sound) validates every path the implementation produces in the sweep; that the implementation's Hierholzer walk always yields an accepted path (path_model_ok) is not proved.",
+    "level_note": "Trusted: Lean kernel for checker_sound, DM/Spec/Fill.lean as the semantics of relative path operators and the even-odd rule, the Lean compiler for running the checker, the harness. The sweep is exhaustive for small bitmaps only.",
+    "technique": "certified checker (Lean theorem: accepted => even-odd fill = bitmap) run on every implementation output",
+    "unproved": ["path_model_ok: forall bitmaps with dark top-left, pathOK bm (path bm)"],
+    "assumptions": ["bitmap dimensions fit i16 (documented precondition of path())"],
+}
+NONTRIVIAL["C17"] = lambda r: r.split()[0] in ("path", "pixels", "unicode") and int(r.split()[2].split(":")[0]) >= 2
